@@ -339,7 +339,10 @@ pub fn emit_api(wanted: &BTreeSet<String>) -> String {
             if let Some(r) = &p.read {
                 members.push_str(&format!("    {t} {r}() const {{ return {field}; }}\n"));
             }
-            if let Some(w) = &p.write {
+            // a notifying property without setter changes from inside the object: the model offers
+            // qvSet<Name> for the driver (not part of the API the generated code may use)
+            let model_setter = (p.write.is_none() && p.notify.is_some()).then(|| format!("qvSet{}", cap(&p.name)));
+            if let Some(w) = p.write.as_ref().or(model_setter.as_ref()) {
                 let argt = if by_ref { format!("const {t} &") } else { t.clone() };
                 // notification: the signal(s) named by NOTIFY, with the value when they carry it
                 let mut notify = String::new();
@@ -742,7 +745,8 @@ pub struct DocUnit {
 }
 
 pub fn setter_of(class: &str, prop: &str) -> Option<String> {
-    meta().prop(class, prop).and_then(|p| p.write.clone())
+    let p = meta().prop(class, prop)?;
+    p.write.clone().or_else(|| p.notify.is_some().then(|| format!("qvSet{}", cap(prop))))
 }
 pub fn getter_of(class: &str, prop: &str) -> Option<String> {
     meta().prop(class, prop).and_then(|p| p.read.clone())
